@@ -5,7 +5,7 @@ import numpy as np
 from .. import scf
 from ..core import Check, MachineryError, repo_setup
 
-LEVEL = "model_checking"
+LEVEL = "other"
 
 TOL_ORTH = -10          # max|C^T C - 1|                            <= 1e-10
 TOL_PROJ = -8           # max|C C^T - D_exact|   at a fixed point   <= 1e-8
@@ -199,6 +199,16 @@ def fixed_points(chk, run: Runner, rng):
         extra = None if wc else {"roothaan_radius": scf.roothaan_radius(hs, L, Dex, nelec, kind)}
         run.run(kind, norb, nelec, hs, L, C0, "fixed-point", ref_energy=Eex, ref_D=Dex, tol_e=TOL_EFP, judged=wc,
                 what=what, tag=("at", I["id"]), energy_clause="energy_exact", extra=extra)
+        # a converged solution is a fixed point of EVERY number of iterations, not only of the default 30: one or two
+        # iterations cannot hide a wrong first Fock build behind re-convergence (and cannot amplify round-off, so
+        # these are judged at every certified fixed point)
+        for nit in (1, 2):
+            run.code.n_opt_iter = nit
+            try:
+                run.run(kind, norb, nelec, hs, L, C0, "fixed-point", ref_energy=Eex, ref_D=Dex, tol_e=TOL_EFP, judged=True,
+                        what=what + f", n_opt_iter={nit}", tag=("at", I["id"], nit), energy_clause="energy_exact")
+            finally:
+                run.code.n_opt_iter = None
         chk.case(("fp", I["id"]))
         chk.sample({"kind": kind, "norb": norb, "nelec": list(nelec), "orbital_scale_s": s, "class": I["cls"],
                     "h1_up_times_s": I["hn"][0].tolist(), "chol": I["L"].tolist(), "Mu": I["Ms"][0].tolist(),
